@@ -111,7 +111,7 @@ func run(e *yae.Expr, src string, k int) string {
 			out = "error:" + err.Error()
 			return
 		}
-		out = v.Type.String() + " " + v.String()
+		out = fmt.Sprint(v.Type.Kind) + " " + v.String()
 	}()
 	return out
 }
@@ -154,7 +154,7 @@ func main() {
 		if err != nil {
 			return "error:" + err.Error()
 		}
-		return v.Type.String() + " " + v.String()
+		return fmt.Sprint(v.Type.Kind) + " " + v.String()
 	}
 	var cs []*sharedC
 	for kind := 0; kind < 3; kind++ {
